@@ -36,7 +36,10 @@ REQUIRED = ["Sqfs.C06.confinement", "Sqfs.C06.confinement_raw", "Sqfs.C06.plan_p
             "Sqfs.C06.confinement_under_faults", "Sqfs.C06.main_confinement", "Sqfs.C06.root_not_established_nothing_unpacked",
             "Sqfs.C06.failed_chdir_writes_nothing", "Sqfs.C06.failing_step_ends_run", "Sqfs.C06.failing_mkdir_p_ends_run",
             "Sqfs.C06.success_means_everything_unpacked", "Sqfs.C06.exit_zero_of_all_fine", "Sqfs.C06.skip_reports_exact",
-            "Sqfs.C06.confinement_without_symlinks_below", "Sqfs.C06.main_confinement_weak", "Sqfs.C06.ordByLoc_is_a_fill_order"]
+            "Sqfs.C06.confinement_without_symlinks_below", "Sqfs.C06.main_confinement_weak", "Sqfs.C06.ordByLoc_is_a_fill_order",
+            # the repaired create_node (fixes/C06-mkdir-eexist-lstat.patch): no hypothesis on what R holds
+            "Sqfs.C06.confinement_any_R", "Sqfs.C06.repaired_touches_only_named_paths", "Sqfs.C06.main_confinement_any_R",
+            "Sqfs.C06.repaired_success_objects_in_place"]
 TRACE = ("mkdir,mkdirat,symlink,symlinkat,mknod,mknodat,open,openat,creat,lsetxattr,setxattr,fsetxattr,utimensat,utimes,"
          "futimesat,utime,fchownat,chown,lchown,fchown,fchmodat,chmod,fchmod,chdir,fchdir,unlink,unlinkat,rename,renameat,"
          "renameat2,link,linkat,truncate,rmdir,removexattr,lremovexattr,chroot,mount")
@@ -47,7 +50,38 @@ CASE_TIMEOUT = 300          # seconds; an idle machine needs ~0.1 s per case
 NOBODY = 65534
 BLOCK = 4096                # block size of the forged images
 RSTATES = ["absent", "empty", "file", "dangling", "link_dir", "link_file", "loop", "populated"]
-WRAPPED = ["mkdir", "symlink", "mknod", "open", "open64", "utimensat", "fchownat", "fchmodat", "lsetxattr", "chdir"]
+# R populated *with symbolic links below it* (left there by an earlier unpack, say): (path below R, target) — the directories on
+# the way are real ones.  `link_hit_tree()` names every one of these paths except `zz_unnamed`.  Targets `../lt_*` / `ABS/lt_*`
+# are decoys in the jail made for this purpose: what appears there came through a link that was in R before the run.
+LINK_STATES = {
+    "lnk_dir1": [(b"a", b"../lt_dir")],                       # directory link at depth 1, 2, 3
+    "lnk_dir2": [(b"d/a", b"../../lt_dir")],
+    "lnk_dir3": [(b"d/e/a", b"../../../lt_dir")],
+    "lnk_abs1": [(b"a", b"ABS/lt_dir")],                       # absolute target
+    "lnk_abs3": [(b"d/e/a", b"ABS/lt_dir/sub")],
+    "lnk_file1": [(b"f", b"../lt_file")],                      # link to a file where the image has a file
+    "lnk_file2": [(b"d/f", b"../../lt_file")],
+    "lnk_filedir1": [(b"a", b"../lt_file")],                   # link to a file where the image has a directory
+    "lnk_dang1": [(b"a", b"nowhere")],                         # dangling, depth 1..3
+    "lnk_dang2": [(b"d/a", b"../nowhere")],
+    "lnk_dang3": [(b"d/e/f", b"../../../lt_dir/new_through_dangling")],   # dangling link at a *file* name: O_EXCL must refuse it
+    "lnk_inner1": [(b"a", b"d")],                              # link that stays inside R
+    "lnk_unnamed": [(b"zz_unnamed", b"../lt_dir"), (b"d/zz_unnamed", b"../../lt_file")],   # paths the image does not name
+    "lnk_many": [(b"a", b"../lt_dir"), (b"d/a", b"../../lt_dir/sub"), (b"f", b"../lt_file"), (b"d/e/a", b"nowhere")],
+}
+RSTATES += sorted(LINK_STATES)
+KNOWN_LINK_ESCAPE = "escape:symlink-below-R"     # the one key under which the tolerated-EEXIST defect is reported (known_findings.d/C06.json)
+MAIN_OP = ["main"]                               # "mainr" when the tree under test has the repaired create_node (probe_variant)
+WRAPPED = ["mkdir", "symlink", "mknod", "open", "open64", "utimensat", "fchownat", "fchmodat", "lsetxattr", "chdir",
+           "write", "pwrite", "pwrite64", "ftruncate", "ftruncate64", "fsync", "close"]
+# calls on the descriptor of a file being filled (ostream.c write_all / realize_sparse / file_flush / file_destroy, unix.c): not calls of
+# the model (it has the file's content appear with the open) — injected and judged by the specification alone (judge_wfaults)
+WCLASSES = ["write", "pwrite", "ftruncate", "fsync", "close"]
+WFAULT_ERRNOS = ["EIO", "ENOSPC", "EDQUOT", "EFBIG", "EINTR", "EINVAL", "EBADF", "EROFS", "EPERM", "EAGAIN"]
+# what the code is *meant* to survive: write()/ftruncate() interrupted by a signal are retried (ostream.c:44, unix.c:82), fsync() on an
+# object that cannot be synced answers EINVAL (ostream.c:132), close() after a successful fsync() carries no news (unix.c:47, result
+# dropped; EINTR retried).  With any other injected failure the exit status must not be 0.
+WTOLERATED = {("write", "EINTR"), ("ftruncate", "EINTR"), ("fsync", "EINVAL")} | {("close", e) for e in WFAULT_ERRNOS}
 FAULT_ERRNOS = ["EEXIST", "ENOTSUP", "ENOSYS", "EPERM", "EACCES", "ENOSPC", "EINTR", "EIO", "EROFS", "ENOENT", "ELOOP", "ENOMEM"]
 CLASS_OF = {"mkdir": "mkdir", "symlink": "symlink", "mknod": "mknod", "openx": "open", "opent": "open", "utimens": "utimensat",
             "chown": "fchownat", "chmod": "fchmodat", "setxattr": "lsetxattr", "chdir": "chdir"}
@@ -133,11 +167,11 @@ def rnd_name(rng, hostile):
     return rng.choice(NAMES_OK)
 
 
-def rnd_tree(rng, hostile=0.15, dup=0.1, depth=3, fan=5, damage=0.0, links=0.0):
+def rnd_tree(rng, hostile=0.15, dup=0.1, depth=3, fan=5, damage=0.0, links=0.0, minfan=0):
     """damage: probability per node of a data block / xattr record the reader refuses; links: of a hard link"""
     def kids(d):
         out = []
-        for _ in range(rng.randint(0, fan)):
+        for _ in range(rng.randint(minfan if d == depth else 0, fan if d == depth or not minfan else 4)):
             if out and rng.random() < dup:
                 nm = rng.choice(out).name
                 if rng.random() < 0.3:
@@ -214,9 +248,44 @@ def corpus_builtin():
                                                               N(b"fifo", "p", perm=0o640), N(b"sock", "s", perm=0o600, xattrs=[(b"user.c06", b"v")])])))
     out.append(("symlink chain inside R then dup", N(b"", "d", children=[N(b"p", "l", payload=b"q"), N(b"q", "l", payload=b"../decoy_dir"), N(b"p", "d", children=[N(b"x", "f")])])))
     out.append(("nested dup below symlink-named dir", N(b"", "d", children=[N(b"d", "d", children=[N(b"a", "l", payload=b"../../decoy_dir"), N(b"a", "d", children=[N(b"x", "f", payload=b"pwned")])])])))
+    # wide directories in adversarial listing order: a slip in tree_sort's merge (an element dropped or left in place at a run
+    # boundary, the adjacent-duplicate test missing a pair that only meets after the last merge) needs more than a handful of siblings
+    wide = [N(b"n%02d" % i, "dfl"[i % 3], payload=(b"../decoy_dir" if i % 3 == 2 else b"p%d" % i if i % 3 == 1 else b""),
+              children=([N(b"c", "f", payload=b"c")] if i % 3 == 0 else [])) for i in range(12)]
+    out.append(("12 siblings in reverse order", N(b"", "d", children=wide[::-1])))
+    out.append(("13 siblings interleaved", N(b"", "d", children=wide[::2] + [N(b"m", "f", payload=b"m")] + wide[1::2][::-1])))
+    far = [N(b"a", "l", payload=b"../decoy_dir")] + [N(bytes([98 + i]), "df"[i % 2], payload=b"x" if i % 2 else b"") for i in range(8)] + \
+          [N(b"a", "d", children=[N(b"pwn", "f", payload=b"pwned")])]
+    out.append(("duplicate first and last of 10 siblings", N(b"", "d", children=far)))
+    out.append(("duplicate across the middle of 9 siblings", N(b"", "d", children=[N(b"h", "f"), N(b"g", "d"), N(b"f", "f"), N(b"e", "d"),
+                N(b"a", "l", payload=b"../decoy_file"), N(b"a", "f", payload=b"pwned", perm=0o777), N(b"d", "f"), N(b"c", "d"), N(b"b", "f")])))
+    out.append(("duplicate dir+symlink, 11 siblings, dup at positions 3 and 8", N(b"", "d", children=[N(b"k", "f"), N(b"j", "f"), N(b"z", "f"),
+                N(b"q", "d", children=[N(b"pwn", "f", payload=b"pwned")]), N(b"i", "f"), N(b"y", "d"), N(b"x", "f"), N(b"w", "f"),
+                N(b"q", "l", payload=b"../decoy_dir"), N(b"b", "f"), N(b"a", "f")])))
+    pre = [b"a", b"aa", b"aaa", b"a.", b"a-", b"A", b"ab", b"a\0z", b"b", b"aa\0", b"a b", b"ab\0c", b"\xff", b"a\xff", b"B", b"0"]
+    out.append(("16 siblings with shared prefixes and NUL-cut duplicates", N(b"", "d", children=[
+        N(nm, "dlf"[i % 3], payload=(b"../decoy_dir" if i % 3 == 1 else b"f%d" % i if i % 3 == 2 else b""),
+          children=([N(b"in", "f", payload=b"in")] if i % 3 == 0 else [])) for i, nm in enumerate(pre)])))
+    out.append(("40 siblings, descending, two levels", N(b"", "d", children=[N(b"s%02d" % i, "d", children=[N(b"t%02d" % j, "f", payload=b"%d" % j) for j in range(9, -1, -1)])
+                                                                          for i in range(39, 29, -1)] + [N(b"r%02d" % i, "f") for i in range(29, -1, -1)])))
     out.append(("xattrs everywhere", N(b"", "d", children=[N(b"f", "f", payload=b"1", xattrs=[(b"user.c06", b"1"), (b"trusted.c06", b"2"), (b"security.c06", b"3")]),
                                                          N(b"d", "d", xattrs=[(b"user.c06", b"d")], children=[N(b"l", "l", payload=b"../../decoy_file", xattrs=[(b"user.c06", b"l")])])])))
     return out
+
+
+def link_hit_tree():
+    """a harmless image whose directories and files sit at the paths of LINK_STATES"""
+    N = Node
+    return N(b"", "d", children=[
+        N(b"a", "d", perm=0o750, uid=3, gid=3, mtime=77, xattrs=[(b"user.c06", b"a")], children=[
+            N(b"x", "f", payload=b"through a\n", perm=0o640, uid=3, mtime=78), N(b"sub", "d", children=[N(b"y", "f", payload=b"y\n")])]),
+        N(b"d", "d", children=[
+            N(b"a", "d", mtime=79, children=[N(b"x", "f", payload=b"through d/a\n", uid=4)]),
+            N(b"e", "d", children=[N(b"a", "d", perm=0o700, children=[N(b"x", "f", payload=b"through d/e/a\n"), N(b"l", "l", payload=b"../../../../decoy_file")]),
+                                   N(b"f", "f", payload=b"d/e/f\n", mtime=80)]),
+            N(b"f", "f", payload=b"d/f\n", perm=0o600, uid=5)]),
+        N(b"f", "f", payload=b"f\n", perm=0o644, uid=6, gid=6, mtime=81, xattrs=[(b"user.c06", b"f")]),
+        N(b"top.txt", "f", payload=b"top\n")])
 
 
 def small_trees():
@@ -269,6 +338,9 @@ def make_jail(base, rstate):
     os.mkdir(jail / "start")                         # sentinel: must stay empty
     os.mkdir(jail / "ro")
     os.mkdir(jail / "noexec")
+    os.makedirs(jail / "lt_dir" / "sub")              # where the links of LINK_STATES point
+    (jail / "lt_dir" / "x0").write_bytes(b"was here\n")
+    (jail / "lt_file").write_bytes(b"link target\n")
     R = jail / "R"
     if rstate == "empty":
         os.mkdir(R)
@@ -289,12 +361,19 @@ def make_jail(base, rstate):
         (R / "pd" / "inner").write_bytes(b"inner\n")
         os.mkdir(R / "a")
         (R / "b").write_bytes(b"was here\n")
+    elif rstate in LINK_STATES:
+        os.mkdir(R)
+        (R / "keep").write_bytes(b"keep\n")
+        for rel, tgt in LINK_STATES[rstate]:
+            q = os.fsencode(R) + b"/" + rel
+            os.makedirs(os.path.dirname(q), exist_ok=True)
+            os.symlink(tgt.replace(b"ABS", os.fsencode(jail)), q)
     elif rstate != "absent":
         raise ValueError(rstate)
     os.chmod(jail / "decoy_file", 0o640)
     os.chmod(jail / "decoy_dir", 0o750)
     for p in (jail / "decoy_file", jail / "decoy_dir", jail / "x", outer / "outer_file", jail / "decoy_dir" / "inner", jail / "start",
-              jail / "blocker", jail, outer):
+              jail / "blocker", jail / "lt_file", jail / "lt_dir", jail / "lt_dir" / "sub", jail / "lt_dir" / "x0", jail, outer):
         os.utime(p, ns=(10**18, 10**18))
     return outer, jail
 
@@ -613,12 +692,13 @@ def run_case(ctx, rd, idx, case, timeout=CASE_TIMEOUT):
                 except OSError:
                     pass
             perm["chdir"] = e
-        fl = [] if case["flags"] == "-" else ["-" + c for c in case["flags"]]
+        noisy = "v" in case["flags"]                  # `v`: run without -q ("creating …" / "unpacking …" on stdout); `Z`: --no-sparse
+        fl = [] if case["flags"] == "-" else ["-" + c for c in case["flags"] if c != "v"]
         cmd = []
         if runner:
             cmd += ["setpriv", "--reuid=%d" % runner, "--regid=%d" % runner, "--clear-groups"]
         cmd += ["strace", "-f", "-xx", "-s", "70000", "-o", str(base / "st.log"), "-e", "trace=" + TRACE,
-                str(rd), "-q", "-u", os.fsdecode(case["upath"])]
+                str(rd)] + ([] if noisy else ["-q"]) + ["-u", os.fsdecode(case["upath"])]
         if rstr is not None:
             cmd += ["-p", os.fsdecode(rstr)]
         cmd += fl + [str(img)]
@@ -630,9 +710,9 @@ def run_case(ctx, rd, idx, case, timeout=CASE_TIMEOUT):
             env["C06_FAULT_LOG"] = str(flog)
         try:
             r = subprocess.run(cmd, cwd=os.fsdecode(cwd), env=env, stdout=subprocess.PIPE, stderr=subprocess.PIPE, timeout=timeout)
-            rc, err = r.returncode, r.stderr
+            rc, err, sout = r.returncode, r.stderr, r.stdout
         except subprocess.TimeoutExpired:
-            rc, err = "timeout", b""
+            rc, err, sout = "timeout", b"", b""
         os.chmod(jail / "ro", 0o755)
         os.chmod(jail / "noexec", 0o755)
         after = snapshot(outer, root)
@@ -642,15 +722,17 @@ def run_case(ctx, rd, idx, case, timeout=CASE_TIMEOUT):
                     snap[absb + b"/" + nm]["mode"] = "toggled"
         log = (base / "st.log").read_text(errors="replace") if (base / "st.log").exists() else ""
         calls = [c for c in parse_strace(log) if not c[0].startswith("open?:" + os.fsencode(flog).hex())]     # the wrappers' own log
-        fired = None
+        fired, fcounts = None, {}
         if case["fault"] is not None and flog.exists():
             for line in flog.read_text().splitlines():
                 w = line.split()
                 if w and w[0] == "fired":
                     fired = w[1:]
+                elif len(w) == 3 and w[0] == "count":
+                    fcounts[w[1]] = int(w[2])
         rec = {"idx": idx, "label": case["label"], "flags": case["flags"], "upath": case["upath"].hex(), "rstate": case["rstate"],
                "rstr": None if case["rstr"] is None else case["rstr"].hex(), "rstr_real": None if rstr is None else rstr.hex(),
-               "start": case["start"], "priv": case["priv"], "fault": case["fault"], "fired": fired,
+               "start": case["start"], "priv": case["priv"], "fault": case["fault"], "fired": fired, "fault_counts": fcounts, "stdout": sout.decode("latin-1") if noisy else None,
                "tokens": tree.tokens(), "template": template, "xattr_table": has_xattr_table(tree), "has_links": has_links(tree),
                "jail": os.fsdecode(absb), "cwd": os.fsdecode(cwd), "root": None if root is None else os.fsdecode(root),
                "perm": perm, "fsents": fsents, "new_dirs": [os.fsdecode(p) for p in allowed_new if p not in before and p in after],
@@ -666,7 +748,7 @@ def run_case(ctx, rd, idx, case, timeout=CASE_TIMEOUT):
 
 # ---------------------------------------------------------------------------------------------- model side
 def model_flags(rec):
-    f = "" if rec["flags"] == "-" else rec["flags"]
+    f = "" if rec["flags"] == "-" else rec["flags"].replace("Z", "").replace("v", "")      # -Z, -q do not change which calls are made
     if not rec["xattr_table"]:
         f += "n"                                   # SQFS_FLAG_NO_XATTRS: `xattr == NULL` in main
     return f or "-"
@@ -679,7 +761,7 @@ def plan_request(rec):
 def main_request(rec, faults=()):
     root = "~" if rec["rstr_real"] is None else (rec["rstr_real"] or "-")
     fl = ["%d=%s" % (i, e) for i, e in faults]
-    return "main %s %s %s %s %d %s %d %s %s" % (model_flags(rec), rec["upath"] or "-", root, key_of(os.fsencode(rec["cwd"])),
+    return MAIN_OP[0] + " %s %s %s %s %d %s %d %s %s" % (model_flags(rec), rec["upath"] or "-", root, key_of(os.fsencode(rec["cwd"])),
                                                len(rec["fsents"]), " ".join(rec["fsents"]), len(fl), " ".join(fl), " ".join(rec["tokens"]))
 
 
@@ -743,6 +825,19 @@ def fine(tok, res):
     return res == "0" or (tok.startswith("mkdir:") and res == "EEXIST")
 
 
+def walks_all_fine(m):
+    """no call of the walks ended the run.  For the repaired create_node a `mkdir`/`EEXIST` that is the *last* call of the trace
+    ended the run unless the name is a directory (lstat) — read off the model's final state at that path (nothing the unpacker does
+    replaces or removes an object, so it is what lstat saw)."""
+    if not all(fine(t, r) for t, r in m["tr"]):
+        return False
+    if MAIN_OP[0] == "mainr" and m["tr"] and m["tr"][-1][0].startswith("mkdir:") and m["tr"][-1][1] == "EEXIST":
+        path = unhx(m["tr"][-1][0].split(":")[1])
+        key = (m["cwd"] if m["cwd"] != "/" else "") + "".join("/" + c.hex() for c in path.split(b"/"))
+        return m["state"].get(key, "-").startswith("d:")
+    return True
+
+
 def phase_split(seq, in_order):
     """(create, fill, attrs) of a token sequence; the fill phase sorted unless its order is defined"""
     i = 0
@@ -780,6 +875,24 @@ def split_calls(rec):
             continue
         (post if chd is not None else pre).append((tok, res))
     return pre, chd, post
+
+
+def compare_stdout(rec):
+    """without -q: one "creating <path>" line before every call of the create walk (the failing one included) and one
+    "unpacking <path>" line after every successful open of the fill walk, in order, nothing else — read off the traced calls"""
+    if rec["stdout"] is None or rec["fault"] is not None or any("~" in t or t.startswith(("truncated", "other", "unparsed")) for t, _ in rec["calls"]):
+        return []                            # (an injected failing call never reaches the kernel: not in the trace; "~": strace cut the path)
+    want = b""
+    for tok, res in split_calls(rec)[2]:
+        f = tok.split(":")
+        if f[0] in ("mkdir", "mknod", "openx"):
+            want += b"creating " + unhx(f[1]) + b"\n"
+        elif f[0] == "symlink":
+            want += b"creating " + unhx(f[2]) + b"\n"
+        elif f[0] == "opent" and res == "0":
+            want += b"unpacking " + unhx(f[1]) + b"\n"
+    got = rec["stdout"].encode("latin-1")
+    return [] if got == want else ["stdout of the run without -q is not the progress lines of the traced calls: got %r want %r" % (got[-300:], want[-300:])]
 
 
 def compare(rec, m):
@@ -838,7 +951,7 @@ def compare(rec, m):
     if rec["rc"] != m["exit"]:
         bad.append("exit status %s, model %d (%s)" % (rec["rc"], m["exit"], m["status"]))
     # the plan's own error is the reason of the failure only if every call was fine
-    if m["est"] and all(fine(t, r) for t, r in m["tr"]) and m["status"].startswith("err:"):
+    if m["est"] and walks_all_fine(m) and m["status"].startswith("err:"):
         kind = m["status"][4:]
         if kind == "xattrRead@attr":
             if not any(x in rec["stderr"] for x in XATTR_MSGS):
@@ -1179,6 +1292,8 @@ def build_cases(ctx, can_nobody):
     for label, t in corpus_builtin():
         for fl in ALLFLAGS:
             cases.append(mk_case("builtin:" + label, t, fl, b"/", "empty" if rng.random() < 0.5 else "absent"))
+        cases.append(mk_case("builtin:" + label, t, "COXTZv", b"/", "absent"))           # --no-sparse, without -q
+        cases.append(mk_case("builtin:" + label, t, rng.choice(ALLFLAGS).replace("-", "") + "v", b"/", "empty"))
     n["builtin"] = len(cases) - n["corpus"]
     small = small_trees()
     # every shape of the unpack root with two option sets and two trees each
@@ -1188,6 +1303,18 @@ def build_cases(ctx, can_nobody):
             for label, t in rng.sample(small, 2):
                 cases.append(mk_case("root:%s:%s:%s" % (rstate, rstr, label), t, fl, b"/", rstate, rstr, start))
     n["root_shapes"] = len(cases) - k0
+    # R holding symbolic links before the run (directory / file / dangling / absolute / inner links at depth 1..3, links at paths
+    # the image does not name): the image that names those paths with four option sets, -p and no -p, and one other tree
+    k0 = len(cases)
+    lh = link_hit_tree()
+    for rstate in sorted(LINK_STATES):
+        for fl in ("-", "COXT", "T", "CX"):
+            cases.append(mk_case("linked:%s:hit" % rstate, lh, fl, b"/", rstate, b"R", "jail"))
+        cases.append(mk_case("linked:%s:hit:nop" % rstate, lh, "OT", b"/", rstate, None, "jail"))
+        cases.append(mk_case("linked:%s:hit:deep-p" % rstate, lh, "-", b"/", rstate, b"./R/", "start" if False else "jail"))
+        label, t = rng.choice(small)
+        cases.append(mk_case("linked:%s:%s" % (rstate, label), t, rng.choice(ALLFLAGS), b"/", rstate, b"R", "jail"))
+    n["linked_R"] = len(cases) - k0
     k0 = len(cases)
     for label, t in small:
         for fl in ("-", "X", "COXT", "CT"):
@@ -1203,7 +1330,7 @@ def build_cases(ctx, can_nobody):
             cases.append(mk_case("nobody:builtin:" + label, t, rng.choice(ALLFLAGS), b"/", rng.choice(["absent", "empty"]), priv="nobody"))
     n["nobody_fixed"] = len(cases) - k0
     nrand = 1200 if ctx.quick() else 30000
-    k0 = len(cases)
+    k0, nwide = len(cases), 0
     for i in range(nrand):
         r = rng.random()
         dmg = 0.15 if rng.random() < 0.15 else 0.0
@@ -1216,7 +1343,14 @@ def build_cases(ctx, can_nobody):
             t = rnd_tree(rng, hostile=0.1, dup=0.12, damage=dmg)
         else:
             t = rnd_tree(rng, hostile=0.3, dup=0.05, depth=4, fan=4, damage=dmg)
+        if rng.random() < 0.2:                                      # wide directories (8..14 siblings), listed in random order
+            t = rnd_tree(rng, hostile=0.08, dup=rng.choice([0.0, 0.0, 0.08]), depth=2, fan=14, damage=dmg, minfan=8)
+            nwide += 1
         fl = ALLFLAGS[i % 16] if rng.random() < 0.7 else rng.choice(ALLFLAGS)
+        if rng.random() < 0.15:
+            fl = (fl if fl != "-" else "") + "Z"
+        if rng.random() < 0.15:
+            fl = (fl if fl != "-" else "") + "v"
         if rng.random() < 0.25:                                     # -D -S -F -L -E prune the tree before unpacking
             fl = (fl if fl != "-" else "") + "".join(c for c in "DSFLE" if rng.random() < 0.4) or "-"
         up = b"/"
@@ -1227,6 +1361,10 @@ def build_cases(ctx, can_nobody):
         rstate, rstr, start = ("empty" if rng.random() < 0.5 else "absent", b"R", "jail")
         if rng.random() < 0.12:
             rstate, rstr, start = rng.choice(ROOT_SHAPES)
+        elif rng.random() < 0.06:
+            rstate, rstr, start = rng.choice(sorted(LINK_STATES)), b"R", "jail"          # random trees often name `a`, `d`, `f`
+            if rng.random() < 0.5:
+                t = Node(b"", "d", children=link_hit_tree().children[:3] + [c for c in t.children if cstr(c.name) not in (b"a", b"d", b"f")])
         priv = "root"
         if can_nobody and not lnk and rng.random() < 0.12:
             priv = "nobody"
@@ -1234,6 +1372,7 @@ def build_cases(ctx, can_nobody):
                 rstate, rstr, start = rng.choice(NOBODY_SHAPES)
         cases.append(mk_case("random", t, fl, up, rstate, rstr, start, priv))
     n["random"] = len(cases) - k0
+    n["random_with_8_to_14_siblings"] = nwide
     return cases, n
 
 
@@ -1292,6 +1431,94 @@ def fault_cases(ctx, cases, recs, models):
     return out
 
 
+def wfault_cases(ctx, cases, recs):
+    """Injected failures of write / pwrite / ftruncate / fsync / close on the descriptor of a file being filled (and of the close
+    after open(O_EXCL)).  Base cases: fault-free successful runs as root into a fresh R of images with regular files (several blocks,
+    sparse blocks and sparse tails so that lseek+ftruncate is reached).  A counting run (fault class `count`, which no wrapper
+    knows) tells how many calls of each class a run makes; then every class x a sample of (k, errno)."""
+    rng = ctx.rng
+    N = Node
+    sparse = N(b"", "d", children=[N(b"s1", "f", payload=b"\0" * 9000 + b"tail"), N(b"s2", "f", payload=b"head" + b"\0" * 12000),
+                                   N(b"s3", "f", payload=b"\0" * 8192), N(b"e", "f"), N(b"big", "f", payload=bytes(range(256)) * 64),
+                                   N(b"d", "d", children=[N(b"z", "f", payload=b"z" * 5000, perm=0o600, uid=2, mtime=9)])])
+    base = [mk_case("wfault-base:sparse files", sparse, fl, b"/", "absent") for fl in ("-", "COXT", "Z", "ZT")]
+    pool = [i for i, (c, r) in enumerate(zip(cases, recs)) if c["priv"] == "root" and c["fault"] is None and r["rc"] == 0 and not r["changed"]
+            and c["rstate"] in ("absent", "empty") and c["upath"] == b"/" and c["rstr"] == b"R" and any(t.startswith("opent:") for t, _ in r["calls"])]
+    for i in rng.sample(pool, min(len(pool), 6 if ctx.quick() else 40)):
+        c = dict(cases[i]); c["label"] = "wfault-base:" + c["label"]
+        base.append(c)
+    counting = []
+    for c in base:
+        c = dict(c); c["fault"] = ("count", 1, "EIO")
+        counting.append(c)
+    return base, counting
+
+
+def wfault_derive(ctx, base, crecs):
+    rng = ctx.rng
+    out = []
+    for c, r in zip(base, crecs):
+        if r["rc"] != 0 or not r["fault_counts"]:
+            raise Infra("counting run of %s: rc=%s counts=%s stderr=%s" % (c["label"], r["rc"], r["fault_counts"], r["stderr"][-300:]))
+        for cls in WCLASSES:
+            n = r["fault_counts"].get(cls, 0)
+            if n == 0:
+                continue
+            ks = list(range(1, n + 1))
+            if len(ks) > (4 if ctx.quick() else 12):
+                ks = sorted(rng.sample(ks, 4 if ctx.quick() else 12))
+            for k in ks:
+                for en in (["EIO", "EINTR", "EINVAL"] + rng.sample(WFAULT_ERRNOS, 1) if ctx.quick() else WFAULT_ERRNOS):
+                    d = dict(c); d["fault"] = (cls, k, en); d["label"] = c["label"].replace("wfault-base:", "wfault:"); d["base_calls"] = r["calls"]
+                    out.append(d)
+    return out
+
+
+def judge_wfaults(ctx, wcases, wrecs, stats):
+    """specification only: nothing outside R changes; no abnormal end; exit status 0 only for a failure the code is meant to survive,
+    and then everything must have been unpacked completely; the traced calls are a prefix of the fault-free run's"""
+    h = stats["hist"].setdefault("wfaults", {})
+    nrep = [0]
+
+    def report(*a, **kw):
+        nrep[0] += 1
+        if nrep[0] <= 5:
+            report(*a, **kw)
+    for c, rec in zip(wcases, wrecs):
+        cls, k, en = c["fault"]
+        key = "%s|%s|%s:%d:%s" % (vlib.sha(" ".join(rec["template"]))[:16], rec["flags"], cls, k, en)
+        if rec["fired"] is None:
+            h["not fired"] = h.get("not fired", 0) + 1
+            continue
+        tol = (cls, en) in WTOLERATED
+        outcome = "%s:%s:%s" % (cls, en if tol or en in ("EINTR", "EINVAL") else "other", "rc=%s" % rec["rc"])
+        h[outcome] = h.get(outcome, 0) + 1
+        stats["wfaults_fired"] += 1
+        stats["nontrivial"].add("wfault|" + key)
+        if rec["changed"]:
+            stats["nviol"] += 1
+            report("escape:wfault:" + key, "rdsquashfs changed objects outside the unpack root after an injected %s failure: %s" % (cls, json.dumps(rec["changed"][:3])[:500]),
+                          replay_dict(rec, "jail snapshot differs outside R"))
+        elif isinstance(rec["rc"], str) or rec["rc"] not in (0, 1):
+            stats["nviol"] += 1
+            report("crash:wfault:" + key, "rdsquashfs ended abnormally (rc=%s) after an injected %s failure: %s" % (rec["rc"], cls, rec["stderr"][-400:]),
+                          replay_dict(rec, "abnormal end"))
+        elif rec["rc"] == 0 and not tol:
+            stats["nviol"] += 1
+            report("fill-error-ignored:" + key, "the %d-th %s() of the run was made to fail with %s and rdsquashfs still exited 0" % (k, cls, en),
+                          replay_dict(rec, "injected %s failure ignored" % cls))
+        elif rec["rc"] == 0 and spec_complete(rec):
+            stats["nviol"] += 1
+            report("incomplete:wfault:" + key, "exit status 0 after a (survivable) injected %s/%s but the image was not completely unpacked: %s" % (
+                cls, en, "; ".join(spec_complete(rec))[:600]), replay_dict(rec, spec_complete(rec)))
+        elif rec["rc"] == 0 and rec["calls"] != c["base_calls"] or rec["rc"] == 1 and rec["calls"] != c["base_calls"][:len(rec["calls"])]:
+            stats["ndis"] += 1
+            report("corr:wfault:" + key, "after an injected %s/%s the traced calls are not %s the fault-free run's" % (cls, en, "equal to" if rec["rc"] == 0 else "a prefix of"),
+                          dict(replay_dict(rec, "calls differ"), fault_free_calls=c["base_calls"][:60]), found_input=False)
+        else:
+            stats["wfaults_ok"] += 1
+
+
 def build_rd(ctx):
     # fill_files.c calls qsort(NULL, 0, …) when the image has no regular file: UBSan's nonnull-attribute check
     # reports that (harmless in glibc, not a C06 matter; noted in docs/design/C06.md), so that one check is off.
@@ -1318,6 +1545,31 @@ def probe_nobody(ctx):
         ok = False
     shutil.rmtree(d, ignore_errors=True)
     return ok
+
+
+def through_planted_link(rec):
+    """every change outside R lies at or below jail/lt_dir, jail/lt_file — the targets of the links make_jail put *below R* — and R
+    was in one of the LINK_STATES: the escape went through a link that was there before the run"""
+    if rec["rstate"] not in LINK_STATES or MAIN_OP[0] != "main":
+        return False
+    # … and the walks made a `mkdir` on the name of one of those links that answered EEXIST and went on.  (The caller also requires
+    # that the run agrees call by call with the model of the *current* code: a mutant that, say, drops O_EXCL and writes through
+    # `f -> ../lt_file` differs from it and is reported as an ordinary escape.)
+    names = {hx(rel) for rel, _ in LINK_STATES[rec["rstate"]]}
+    post = split_calls(rec)[2]
+    if not any(t.startswith("mkdir:") and t.split(":")[1] in names and r == "EEXIST" and i + 1 < len(post) for i, (t, r) in enumerate(post)):
+        return False
+    ok = tuple(rec["jail"] + "/" + x for x in ("lt_dir", "lt_file"))
+    return all(any(c["path"] == o or c["path"].startswith(o + "/") for o in ok) for c in rec["changed"])
+
+
+def probe_variant(ctx, rd):
+    """Which create_node does the tree under test have?  R/a -> ../lt_dir, image with a/x: the current code unpacks through the
+    link (exit 0, lt_dir/x appears); the repaired one (fixes/C06-mkdir-eexist-lstat.patch) fails at `mkdir a` and changes nothing.
+    Anything else is neither: treated as current code, so that the ordinary comparison reports it."""
+    rec = run_case(ctx, rd, 10**6, mk_case("probe:variant", link_hit_tree(), "-", b"/", "lnk_dir1", b"R", "jail"))
+    repaired = rec["rc"] == 1 and not rec["changed"] and not any(c.startswith(("openx:", "opent:")) for c, _ in rec["calls"])
+    return repaired, rec
 
 
 def replay_dict(rec, why):
@@ -1401,7 +1653,16 @@ def judge(ctx, recs, models, plans, stats):
         if rec["skips"] or st != "ok" or any(r != "0" for _, r in rec["calls"][1:]) or rec["fault"] is not None:
             stats["nontrivial"].add(key)
         # 1. the specification, on the implementation: nothing outside R changed
-        if rec["changed"]:
+        if rec["changed"] and through_planted_link(rec) and not (compare(rec, m) + compare_state(rec, m)):
+            # the recorded defect: create_node tolerates EEXIST from mkdir without looking at what exists, so a symbolic link that
+            # was below R before the run is walked through.  One key for the defect, not one per image; the run is still
+            # compared with the model (which follows the link the same way) below.
+            stats["link_escapes"] += 1
+            if stats["link_escapes"] == 1:
+                ctx.violation(KNOWN_LINK_ESCAPE, "rdsquashfs wrote outside the unpack root through a symbolic link that was below R before the run "
+                              "(create_node tolerates EEXIST from mkdir without lstat): %s" % json.dumps(rec["changed"][:2])[:500],
+                              replay_dict(rec, "jail snapshot differs outside R, below the target of a link planted in R"))
+        elif rec["changed"]:
             stats["nviol"] += 1
             if stats["nviol"] <= 5:
                 ctx.violation("escape:" + key, "rdsquashfs changed objects outside the unpack root: %s" % json.dumps(rec["changed"][:3])[:600],
@@ -1421,8 +1682,10 @@ def judge(ctx, recs, models, plans, stats):
                               replay_dict(rec, inc))
             continue
         # 2. correspondence
-        bad = compare(rec, m) + compare_skips(rec, m, pl) + compare_state(rec, m)
+        bad = compare(rec, m) + compare_skips(rec, m, pl) + compare_state(rec, m) + compare_stdout(rec)
         stats["compared"] += 1
+        stats["noisy_compared"] += rec["stdout"] is not None
+        stats["nosparse_runs"] += "Z" in rec["flags"]
         if bad:
             stats["ndis"] += 1
             if stats["ndis"] <= 5:
@@ -1474,6 +1737,11 @@ def run(ctx):
     rd = build_rd(ctx)
     can_nobody = os.geteuid() == 0 and probe_nobody(ctx)
     ctx.log("unprivileged runs (setpriv uid 65534 under strace): %s" % ("possible" if can_nobody else "NOT possible in this sandbox"))
+    repaired, prec = probe_variant(ctx, rd)
+    MAIN_OP[0] = "mainr" if repaired else "main"
+    ctx.log("create_node of the tree under test: %s (probe: rc=%s, changed outside R: %d)" % (
+        "REPAIRED (mkdir/EEXIST accepted only after lstat says directory) - model unpackMainR" if repaired else "current (EEXIST tolerated blindly) - model unpackMain",
+        prec["rc"], len(prec["changed"])))
     cases, ncase = build_cases(ctx, can_nobody)
     ctx.log("cases: " + ", ".join("%d %s" % (v, k) for k, v in ncase.items()))
     recs = run_all(ctx, rd, cases)
@@ -1481,7 +1749,7 @@ def run(ctx):
     models, plans = model_pass(ctx, cases, recs)
     stats = {"hist": {"rc": {}, "model_status": {}, "impl_calls": 0, "skips_reported": 0, "rstate": {}, "priv": {}, "root": {}, "faults": {},
                       "nobody_refusals": {}},
-             "nontrivial": set(), "ndis": 0, "nviol": 0, "nmon": 0, "compared": 0, "complete_checked": 0, "monitored": 0, "monitored_calls": 0, "monitor_skipped": {}}
+             "nontrivial": set(), "ndis": 0, "nviol": 0, "link_escapes": 0, "wfaults_fired": 0, "wfaults_ok": 0, "noisy_compared": 0, "nosparse_runs": 0, "nmon": 0, "compared": 0, "complete_checked": 0, "monitored": 0, "monitored_calls": 0, "monitor_skipped": {}}
     judge(ctx, recs, models, plans, stats)
     # fault injection: derived from the fault-free runs
     fcases = fault_cases(ctx, cases, recs, models)
@@ -1492,6 +1760,20 @@ def run(ctx):
     if fcases and nfired * 2 < len(fcases):
         raise Infra("only %d of %d injected faults fired: the wrappers are not in effect" % (nfired, len(fcases)))
     judge(ctx, frecs, fmodels, fplans, stats)
+    # failures of write / ftruncate / fsync / close while a file is being filled
+    wbase, wcount = wfault_cases(ctx, cases, recs)
+    wcrecs = run_all(ctx, rd, wcount, first_idx=len(cases) + len(fcases))
+    wcases = wfault_derive(ctx, wbase, wcrecs)
+    ctx.log("fill-phase fault runs (write/ftruncate/fsync/close): %d from %d base cases" % (len(wcases), len(wbase)))
+    wrecs = run_all(ctx, rd, wcases, first_idx=len(cases) + len(fcases) + len(wcount))
+    judge_wfaults(ctx, wcases, wrecs, stats)
+    # (ftruncate and pwrite are wrapped but an unpack run never reaches them: sqfs_istream_splice hands the output stream real
+    # buffers also for sparse blocks, so realize_sparse's lseek+ftruncate is dead for `rdsquashfs -u`, with or without -Z)
+    wcalled = sorted(c for c in WCLASSES if any(r["fault_counts"].get(c, 0) for r in wcrecs))
+    stats["wclasses_called"] = wcalled
+    if stats["wfaults_fired"] * 2 < len(wcases) or not {"write", "fsync", "close"} <= set(wcalled) or \
+            not all(any(k.startswith(c + ":") for k in stats["hist"]["wfaults"]) for c in wcalled):
+        raise Infra("fill-phase faults: %d of %d fired, classes seen %s" % (stats["wfaults_fired"], len(wcases), sorted(stats["hist"]["wfaults"])))
     if not stats["compared"] or not stats["monitored"] or not stats["monitored_calls"] or not stats["complete_checked"]:
         raise Infra("nothing was compared (%d) or monitored (%d runs, %d calls)" % (stats["compared"], stats["monitored"], stats["monitored_calls"]))
     if not stats["hist"]["root"].get("chdir failed") or not stats["hist"]["root"].get("mkdir_p failed"):
@@ -1509,11 +1791,13 @@ def run(ctx):
                         "fault": r["fault"], "nodes": len(r["tokens"]), "rc": r["rc"], "calls": [c for c, _ in r["calls"]][:8],
                         "model": {k: v for k, v in allmodels[i].items() if k in ("exit", "est", "status", "chdir", "special")}})
     ctx.cov.update({
-        "evaluations": len(allrecs) + pstat["scripts"],
+        "evaluations": len(allrecs) + len(wrecs) + pstat["scripts"],
         "distinct_nontrivial": len(stats["nontrivial"]),
         "rule": "forged images (%s; all 16 subsets of -C -O -X -T, 25%% also with a subset of -D -S -F -L -E; 15%% with an unpack sub-path; 15%% of the random "
                 "trees with damaged data blocks / xattr records, 8%% with hard links) unpacked by the ASan+UBSan rdsquashfs of the working tree under strace in a jail "
-                "with decoys and an empty sentinel start directory; R absent / empty / a file / a dangling link / a link to a directory / to a file / a loop / populated, "
+                "with decoys and an empty sentinel start directory; R absent / empty / a file / a dangling link / a link to a directory / to a file / a loop / populated / "
+                "populated with symbolic links below it (14 LINK_STATES: directory, file, dangling, absolute, inner links at depth 1..3, links at unnamed paths); "
+                "15%% of the random runs with -Z, 15%% without -q (stdout compared), 20%% of the random trees with 8..14 siblings in the top directory; "
                 "-p spelled %d ways or not given; unprivileged runs: %s; then %d runs with one injected system-call failure each (classes %s x errnos %s); "
                 "non-trivial = distinct (tree, flags, path, R state, -p, user, fault) where an entry was skipped, the tool failed, a system call failed or was made to fail" % (
                     ", ".join("%d %s" % (v, k) for k, v in ncase.items()), len({s[1] for s in ROOT_SHAPES}), "yes" if can_nobody else "not possible here",
@@ -1524,9 +1808,23 @@ def run(ctx):
         "posix_model_probe": pstat,
         "monitor_on_real_calls": {"runs": stats["monitored"], "calls": stats["monitored_calls"], "disagreements": stats["nmon"], "not_monitored": stats["monitor_skipped"]},
         "faults_fired": nfired,
+        "fill_phase_faults": {"classes": WCLASSES, "errnos": WFAULT_ERRNOS, "runs": len(wcases), "fired": stats["wfaults_fired"], "as_specified": stats["wfaults_ok"],
+                              "classes_an_unpack_run_calls": stats["wclasses_called"],
+                              "survivable_by_design": sorted("%s/%s" % x for x in WTOLERATED if x[0] != "close") + ["close/*"]},
         "successful_runs_checked_for_completeness": stats["complete_checked"],
         "unprivileged_runs_possible": can_nobody,
+        # explicit flag: a capability the check needs and this run did not have — the evidence of such a run is weaker and says so
+        "capabilities_missing": [] if can_nobody else ["unprivileged-runs: setpriv --reuid=65534 under strace is not possible here (not root, or the sandbox "
+                                                       "refuses it): the nobody stream (EPERM/EACCES reactions of the real kernel) was NOT exercised"],
+        "runs_without_q_stdout_compared": stats["noisy_compared"], "runs_with_no_sparse_Z": stats["nosparse_runs"],
+        "create_node_variant": "repaired (model unpackMainR / op mainr)" if repaired else "current (model unpackMain / op main)",
+        "runs_into_R_with_symlinks_below": sum(v for k, v in stats["hist"]["rstate"].items() if k in LINK_STATES),
+        "escapes_through_a_link_planted_below_R": stats["link_escapes"],
     })
+    if not can_nobody:
+        ctx.log("CAPABILITY MISSING: unprivileged runs were not possible; evidence flag capabilities_missing is set")
+    if not stats["noisy_compared"] or not stats["nosparse_runs"]:
+        raise Infra("no run without -q (%d) or with -Z (%d) was compared" % (stats["noisy_compared"], stats["nosparse_runs"]))
     return ctx.finish(LEVEL, trusted_extra=[
         "abstract POSIX file system of Sqfs/Model/Unpack.lean (path resolution, symlink following, O_EXCL / O_CREAT|O_TRUNC / AT_SYMLINK_NOFOLLOW rules): "
         "hypothesis of the theorems, validated against the kernel by random system-call scripts on every run (posix_model_probe)",
@@ -1534,9 +1832,12 @@ def run(ctx):
         "harness/h_c06_fault.c (link-time wrappers that make one call fail)",
         "modelled: rdsquashfs.c (tree_sort, OP_UNPACK incl. mkdir_p/chdir), restore_fstree.c, fill_files.c, mkdir_p.c, dir_tree.c (sqfs_tree_node_get_path), read_tree.c "
         "(names as C strings, children only below directory inodes, --unpack-path lookup); canonicalize_name / is_filename_sane via the C18 model"],
-        assumptions=["the directory the tool stands in after chdir(R) has no symbolic link strictly below it before the run (in particular: is fresh); "
-                     "an R that already holds symbolic links is outside the property (Witness.C06.prepopulated_symlink_escapes) and not generated",
-                     "no other process modifies R during the run"])
+        assumptions=(["CURRENT create_node: the confinement theorems of the current code need `NoLinkBelow` (no symbolic link strictly below the directory the tool "
+                      "stands in after chdir(R)); the property states no such hypothesis: an R that already holds a symbolic link at the path of a directory of the "
+                      "image is walked through (Witness.C06.prepopulated_symlink_escapes; generated on every run: LINK_STATES; recorded as known finding "
+                      "escape:symlink-below-R).  REPAIRED create_node (fixes/C06-mkdir-eexist-lstat.patch): C06.confinement_any_R, no hypothesis on R"]
+                     if not repaired else ["repaired create_node: confinement_any_R applies, no hypothesis on what R holds"]) +
+                    ["no other process modifies R during the run"] + ([] if can_nobody else ["UNPRIVILEGED RUNS NOT EXERCISED in this run (capabilities_missing)"]))
 
 
 def replay(ctx, path):
@@ -1548,6 +1849,8 @@ def replay(ctx, path):
     ctx.lean_build(["sqfsmodel"])
     os.chmod(ctx.scratch, 0o755)
     rd = build_rd(ctx)
+    MAIN_OP[0] = "mainr" if probe_variant(ctx, rd)[0] else "main"
+    print("model       :", "unpackMainR (repaired create_node)" if MAIN_OP[0] == "mainr" else "unpackMain (current create_node)")
     rstr = rp.get("rstr", "52")
     case = mk_case(rp.get("label", "replay"), node_from_tokens(rp["tokens"]), rp["flags"], bytes.fromhex(rp["upath"]),
                    rp.get("rstate", "empty" if rp.get("precreate", True) else "absent"), None if rstr is None else bytes.fromhex(rstr),
